@@ -400,6 +400,42 @@ def _compress_lanes(rel, fn):
     return lanes
 
 
+FEAT = {"sse4.1": 1, "avx": 2, "avx2": 3}
+MODS = {"reference": 0, "sse41": 1, "avx": 2, "avx2": 3}
+
+
+def _dispatch(rel, impl, fn, callee):
+    """the `#[cfg(target_feature = F)] { if HAS_F { return M::callee(…) } }` blocks of a dispatch function, in source
+    order: [[feature code, module code], …]; checks that HAS_F is `true` exactly under `cfg(target_feature = F)` and
+    that the fall-through is `reference::callee`"""
+    src = _src(rel)
+    if impl:
+        m = re.search(r"\bimpl\s+" + impl + r"\s*\{", src)
+        if not m:
+            raise ValueError(f"impl {impl} not found")
+        src = src[m.end():_balanced(src, m.end() - 1, "{", "}")]
+    body = _fn_body(src, fn)
+    has = {}
+    for f, name, val in re.findall(r'#\[cfg\(target_feature\s*=\s*"([^"]+)"\)\]\s*const\s+(HAS_\w+)\s*:\s*bool\s*=\s*(true|false)\s*;', body):
+        if val != "true":
+            raise ValueError(f"{name} is false under cfg(target_feature = {f})")
+        has[name] = f
+    for f, name, val in re.findall(r'#\[cfg\(not\(target_feature\s*=\s*"([^"]+)"\)\)\]\s*const\s+(HAS_\w+)\s*:\s*bool\s*=\s*(true|false)\s*;', body):
+        if val != "false" or has.get(name) != f:
+            raise ValueError(f"{name}: inconsistent definitions")
+    out = []
+    for f, name, mod, cal in re.findall(r'#\[cfg\(target_feature\s*=\s*"([^"]+)"\)\]\s*\{\s*if\s+(HAS_\w+)\s*\{\s*return\s+(\w+)::(\w+)\(', body):
+        if has.get(name) != f or cal != callee:
+            raise ValueError(f"dispatch block cfg({f}) tests {name} / calls {cal}")
+        out.append([FEAT[f], MODS[mod]])
+    n_ret = len(re.findall(r"\breturn\b", re.sub(r'#\[cfg\(target_arch\s*=\s*"aarch64"\)\]\s*\{', "{AARCH64", body).split("{AARCH64")[0]))
+    if n_ret != len(out):
+        raise ValueError("a `return` outside the recognised dispatch blocks")
+    if not re.search(r"\breference::" + callee + r"\([^;]*\)\s*$", body.strip()):
+        raise ValueError("fall-through is not reference::" + callee)
+    return out
+
+
 def T(name, fn, doc, elem="Nat"):
     return Table("Simd", name, "K32", ANCHOR_FILE, elem=elem, post=lambda _v, f=fn: f(), doc=doc + "; anchor")
 
@@ -432,6 +468,11 @@ TABLES = [
     T("AVX_TAIL", lambda: _sched(AVX, "message_schedule_8ways")[2], "tail"),
     T("AVX_COMPRESS_LANES", lambda: _compress_lanes(AVX, "compress_8ways"), "`compress_once!(j)` invocations of compress_8ways"),
     T("AVX_BATCH_BYTES", lambda: _batch(AVX), "`while block.len() >= 512`"),
+    # ---- dispatch (mod.rs files)
+    T("DISPATCH_SHA256", lambda: _dispatch("src/hashing/sha2/impl256/mod.rs", None, "digest_block", "digest_block"),
+      "impl256::digest_block: [feature (1 sse4.1, 2 avx, 3 avx2), module (0 reference, 1 sse41, 2 avx, 3 avx2)] in source order"),
+    T("DISPATCH_BLAKE2B", lambda: _dispatch("src/hashing/blake2/mod.rs", "EngineB", "compress", "compress_b"), "EngineB::compress"),
+    T("DISPATCH_BLAKE2S", lambda: _dispatch("src/hashing/blake2/mod.rs", "EngineS", "compress", "compress_s"), "EngineS::compress"),
     # ---- BLAKE2 avx.rs (b and s)
     T("B_ROT16_MASK", lambda: _call_args(B2AVX, "rotate16_epi64", "r16"), "blake2/avx.rs rotate16_epi64 shuffle mask"),
     T("B_ROT24_MASK", lambda: _call_args(B2AVX, "rotate24_epi64", "r24"), "rotate24_epi64 shuffle mask"),
